@@ -1,18 +1,17 @@
 SPECIFICATION Spec
 CONSTANTS
   Keyspaces = {"k1"}
-  MaxVer = 2
-  AbsentVers = {}
+  MaxVer = 3
+  AbsentVers = {2}
   NoTableVers = {}
   Plans <- PlansMeta2
   MaxFail = 1
-  MaxDown = 1
+  MaxDown = 0
   MaxRoute = 1
   PkFromPrepare = FALSE
   TakeAll = FALSE
   KsFailureIsNotExist = FALSE
   DefectNoConnCached = FALSE
   Variant = "ok"
-INVARIANTS TypeOK NoStaleRead StaleHasPendingEvent FailedNotCached ErrorIsOwn NotExistOnlyIfAbsent SharedCache RouteFailedNotCached RouteSingleFlight RouteBounded RouteFromSchema
+INVARIANTS ReachMarks TypeOK NoStaleRead StaleHasPendingEvent FailedNotCached ErrorIsOwn NotExistOnlyIfAbsent SharedCache RouteFailedNotCached RouteSingleFlight RouteBounded RouteFromSchema
 CHECK_DEADLOCK FALSE
-
